@@ -43,6 +43,9 @@ class StmtMixin:
         return branches
 
     def exec(self, st, stmt):
+        if not hasattr(self, "reached"):
+            self.reached = set()
+        self.reached.add(id(stmt))  # (a feasible state arrived at this statement: the vacuity guard reads this)
         m = getattr(self, "s_" + type(stmt).__name__, None)
         if m is None:
             raise Unsupported("statement %s at line %s" % (type(stmt).__name__, stmt.lineno))
